@@ -107,3 +107,175 @@ def run_cases(mode, cases, per_case=PER_CASE):
     finally:
         shutil.rmtree(cwd, ignore_errors=True)
     return res
+
+
+def run_ucg_batch(sub, files, cwd, per_file=PER_CASE, pre=()):
+    """`ucg <pre> <sub> f1 f2 ...` on the real binary, one process for many files.  ucg prints a line naming each file before it
+    works on it; when the process dies (exit status other than 0/1) or stays silent, the last file named is blamed and the run
+    resumes after it.  Returns {file: (status, detail)} with status OK (process went past it) / CRASH / TIMEOUT."""
+    exe = R.ucg_binary()
+    out = {}
+    todo = list(files)
+    while todo:
+        errf = tempfile.TemporaryFile()
+        p = subprocess.Popen([exe] + list(pre) + [sub] + todo, stdout=subprocess.PIPE, stderr=errf, stdin=subprocess.DEVNULL, cwd=cwd)
+        fd = p.stdout.fileno()
+        buf = b''
+        last = time.time()
+        timed_out = False
+        while True:
+            r, _, _ = select.select([fd], [], [], 0.5)
+            if r:
+                d = os.read(fd, 1 << 16)
+                if not d:
+                    break
+                buf += d
+                last = time.time()
+            elif time.time() - last > per_file:
+                timed_out = True
+                p.kill()
+                break
+        try:
+            p.wait(timeout=10)
+        except subprocess.TimeoutExpired:
+            p.kill()
+            p.wait()
+        p.stdout.close()
+        rc = p.returncode
+        text = buf.decode('utf-8', 'replace')
+        if not timed_out and rc in (0, 1):
+            for f in todo:
+                out[f] = ('OK', '')
+            errf.close()
+            break
+        # which file was it working on?  the last one announced on stdout
+        idx = -1
+        for i, f in enumerate(todo):
+            if re.search(r'(^|[\s/])%s(\s|$)' % re.escape(f), text):
+                idx = i
+        idx = max(idx, 0)
+        errf.seek(0)
+        tail = errf.read()[-400:].decode('utf-8', 'replace').strip().replace('\n', ' | ')
+        errf.close()
+        for f in todo[:idx]:
+            out[f] = ('OK', '')
+        out[todo[idx]] = ('TIMEOUT', 'no output for %.0f s' % per_file) if timed_out else ('CRASH', 'exit status %s: %s' % (rc, tail))
+        todo = todo[idx + 1:]
+    return out
+
+
+# ------------------------------------------------------------------ corpus, tokens, mutations
+TOKEN_RE = re.compile(r'"(?:\\.|[^"\\])*"|//[^\n]*|[A-Za-z_][A-Za-z0-9_-]*|\d+|\s+|==|=>|>=|<=|\.\.|::|&&|\|\||%%|!=|!~|.', re.S)
+
+
+def lex(src):
+    """(separator-before, token) pairs + trailing separator; separators are whitespace and comments.  Independent of ucg's tokenizer."""
+    toks, sep = [], ''
+    for m in TOKEN_RE.finditer(src):
+        t = m.group(0)
+        if t.isspace() or t.startswith('//'):
+            sep += t
+        else:
+            toks.append((sep, t))
+            sep = ''
+    return toks, sep
+
+
+def unlex(toks, tail):
+    return ''.join(s + t for s, t in toks) + tail
+
+
+KEYWORDS = {'let', 'import', 'include', 'as', 'func', 'select', 'map', 'filter', 'reduce', 'module', 'out', 'constraint', 'convert',
+            'assert', 'fail', 'TRACE', 'not'}
+BINOPS = {'+', '-', '*', '/', '%%', '==', '!=', '>=', '<=', '<', '>', '&&', '||', '~', '!~', 'in', 'is'}
+
+
+def tok_class(t):
+    """Coarse classes used by the class-preserving replacement (so that a good share of the mutants still parses)."""
+    if t[0] == '"':
+        return 'str'
+    if t[0].isdigit():
+        return 'num'
+    if t in BINOPS:
+        return 'binop'
+    if t in KEYWORDS:
+        return 'kw:' + t
+    if t[0].isalpha() or t[0] == '_':
+        return 'word'
+    return 'punct:' + t
+
+
+MUTATIONS = ['delete', 'duplicate', 'swap', 'replace', 'replace_same_class', 'replace_same_class', 'replace_atom', 'replace_atom']
+
+
+def is_atom(t):
+    return tok_class(t) in ('str', 'num', 'word')
+
+
+def mutate(rnd, toks):
+    """One token-level mutation: delete / duplicate / swap adjacent / replace by another token of the same file (any token, a token
+    of the same lexical class, or -- for names and literals -- any other name or literal; the last two keep most mutants parseable
+    so that the later stages are reached)."""
+    toks = list(toks)
+    n = len(toks)
+    if n == 0:
+        return toks, 'none'
+    kind = rnd.choice(MUTATIONS)
+    i = rnd.randrange(n)
+    if kind == 'delete':
+        del toks[i]
+    elif kind == 'duplicate':
+        toks.insert(i, (' ', toks[i][1]))
+    elif kind == 'swap':
+        if n > 1:
+            i = rnd.randrange(n - 1)
+            (s1, t1), (s2, t2) = toks[i], toks[i + 1]
+            toks[i], toks[i + 1] = (s1, t2), (s2 or ' ', t1)
+    elif kind == 'replace':
+        toks[i] = (toks[i][0] or ' ', toks[rnd.randrange(n)][1])
+    elif kind == 'replace_same_class':
+        cls = tok_class(toks[i][1])
+        pool = sorted(set(t for _, t in toks if tok_class(t) == cls and t != toks[i][1]))
+        if pool:
+            toks[i] = (toks[i][0] or ' ', rnd.choice(pool))
+    else:
+        idx = [j for j in range(n) if is_atom(toks[j][1])]
+        if idx:
+            i = rnd.choice(idx)
+            pool = sorted(set(toks[j][1] for j in idx if toks[j][1] != toks[i][1]))
+            if pool:
+                toks[i] = (toks[i][0] or ' ', rnd.choice(pool))
+    return toks, kind
+
+
+def shipped_files():
+    """Every .ucg file shipped in the repository (integration_tests, std, examples, example_errors, docsite, src fixtures), as (relative path, text)."""
+    out = []
+    for top in ['integration_tests', 'std', 'examples', 'example_errors', 'docsite', 'src']:
+        for dp, dn, fn in os.walk(os.path.join(REPO, top)):
+            dn.sort()
+            for f in sorted(fn):
+                if f.endswith('.ucg'):
+                    p = os.path.join(dp, f)
+                    try:
+                        out.append((os.path.relpath(p, REPO), open(p, encoding='utf-8').read()))
+                    except UnicodeDecodeError:
+                        pass
+    return out
+
+
+def fuzz_corpus():
+    """UTF-8 decodable files of /repo/fuzz/corpus (if present), as (relative path, text)."""
+    out = []
+    base = os.path.join(REPO, 'fuzz', 'corpus')
+    for dp, dn, fn in os.walk(base):
+        dn.sort()
+        for f in sorted(fn):
+            p = os.path.join(dp, f)
+            try:
+                t = open(p, 'rb').read().decode('utf-8')
+            except (UnicodeDecodeError, OSError):
+                continue
+            if SEP not in t and '\n%%%%' not in t:
+                out.append((os.path.relpath(p, REPO), t))
+    return out
